@@ -23,6 +23,8 @@ KINDS = {
     10: 'model of the denomination credited by the transfer keeper disagrees with the code',
     11: 'the model asked sha256 on an argument the implementation never hashed',
     12: 'model of common.BytesToAddress disagrees with the code',
+    13: 'model of ibc-go\'s transfer application (Model/Ics20Transfer.v) disagrees with the bare transfer module',
+    14: 'model of the keeper hook disagrees with Keeper.OnRecvPacket called directly',
     21: 'the middleware returned a nil acknowledgement: ibc-go writes no acknowledgement for the packet',
     22: 'the middleware returned an acknowledgement different from the transfer application\'s',
     23: 'the middleware panicked / returned where the bare transfer application did the opposite',
@@ -38,8 +40,11 @@ KINDS = {
     41: 'full conversion credited an EVM address that is not the receiver\'s (receiver address is not 20 bytes)',
     51: 'oracle hypothesis broken: transfer application acknowledged success for invalid data / amount / receiver',
     52: 'oracle hypothesis broken: successful receive did not credit exactly the amount',
+    53: 'hypothesis broken: the aggregate or the transfer module account is not a blocked address (app.go BlockedAddrs)',
     61: 'OnAcknowledgementPacket through the middleware differs from the bare transfer application',
     62: 'OnTimeoutPacket through the middleware differs from the bare transfer application',
+    71: 'the keeper hook returned nil or an acknowledgement other than the one it was given',
+    72: 'the keeper hook left a conversion neither complete nor absent (direct call on the state before the packet)',
 }
 KNOWN_KEYS = {41: 'receiver-not-20-bytes'}
 
@@ -75,9 +80,13 @@ def cbobs(c):
     return '{| cb_bare := %d; cb_stack := %d; cb_same := %s |}' % (c['bare_class'], c['stack_class'], coq_bool(c['same_post']))
 
 
-def packet_bytes(spec):
-    """the packet data exactly as the harness builds it (harness/cmd/c16 packetData)"""
-    return None  # the model never looks at the raw data: decode is an oracle
+def trobs(t):
+    return ('{| tr_recv_blocked := %s; tr_recv_enabled := %s; tr_denom_ok := %s; tr_escrow := %s; tr_tmodule := %s; '
+            'tr_pre_esc := %s; tr_pre_tmod := %s; tr_pre_supply := %s; tr_post_esc := %s; tr_post_tmod := %s; '
+            'tr_post_supply := %s |}' % (
+                coq_bool(t['recv_blocked']), coq_bool(t['recv_enabled']), coq_bool(t['denom_ok']), hx(t['escrow']),
+                hx(t['tmodule']), coq_Z(t['pre_esc'] or '0'), coq_Z(t['pre_tmod'] or '0'), coq_Z(t['pre_supply'] or '0'),
+                coq_Z(t['post_esc'] or '0'), coq_Z(t['post_tmod'] or '0'), coq_Z(t['post_supply'] or '0')))
 
 
 def case_term(r):
@@ -98,12 +107,14 @@ def case_term(r):
     return ('{| k_pkt := %s; k_decoded := %s; k_amount := %s; k_recv := %s; k_sha := %s; k_hook_denom := %s; '
             'k_got_denom := %s; k_evm_recv := %s; k_module := %s; k_reg := %d; k_contract := %s; k_alive := %s; '
             'k_owner := %d; k_pair_enabled := %s; k_agg_enabled := %s; k_blocked := %s; k_send_disabled := %s; '
-            'k_pre := %s; k_bare := %s; k_stack := %s; k_core := %s; k_ackcb := %s; k_tocb := %s |}' % (
+            'k_pre := %s; k_bare := %s; k_stack := %s; k_core := %s; k_ackcb := %s; k_tocb := %s; k_hook := %s; '
+            'k_hook_ack := %s; k_tr := %s; k_mods_blocked := %s |}' % (
                 pkt, coq_option(dec), coq_option(amt), coq_option(recv), sha, cb(o['hook_denom']), cb(o['got_denom']),
                 hx(o['evm_recv']), hx(o['module']), reg, hx(o['contract']), coq_bool(o['alive']), o['owner'],
                 coq_bool(not s['pair_disabled']), coq_bool(not s['agg_disabled']), coq_bool(o['blocked']),
                 coq_bool(s['send_disabled']), snap(pre), callobs(o['bare']), callobs(o['stack']), coreobs(o['core']),
-                cbobs(o['ack_cb']), cbobs(o['to_cb'])))
+                cbobs(o['ack_cb']), cbobs(o['to_cb']), callobs(o['hook']), hx(o['hook_ack']), trobs(o['tr']),
+                coq_bool(o['mods_blocked'])))
 
 
 SHARD = 250
@@ -157,7 +168,9 @@ def shrink(workdir, spec, kind, which):
         got = ff if which == 'monitor' else mm
         return any(k == kind for _, _, k in got)
     best = dict(spec)
-    for key, val in (('pre_voucher', '0'), ('pre_escrow', '0'), ('chan_escrow', '0'), ('send_disabled', False),
+    if best.get('chain'):
+        return best   # a step of a history: the replay file carries the whole history (see history_of)
+    for key, val in (('decoy', False), ('pre_voucher', '0'), ('pre_escrow', '0'), ('chan_escrow', '0'), ('send_disabled', False),
                      ('recv_disabled', False), ('agg_disabled', False), ('pair_disabled', False), ('module_tokens', '0'),
                      ('reg', 'none'), ('reg', 'coin'), ('amount', '1'), ('denom', 'uatom'),
                      ('sender', 'sender'), ('id', 0), ('seq', 1)):
@@ -170,8 +183,30 @@ def shrink(workdir, spec, kind, which):
     return best
 
 
+def history_of(results, h):
+    """the specs a case depends on: a chained case starts from the state its predecessors committed"""
+    i = h
+    while i > 0 and results[i]['spec'].get('chain'):
+        i -= 1
+    return [results[j]['spec'] for j in range(i, h + 1)]
+
+
+EXTRA = ['theories/Props/C16_c11.v']
+
+
 def check(run):
-    pr = run.proof_stage()
+    pr = run.proof_stage(extra_modules=EXTRA)
+    if not run.quick():
+        run.coqchk_stage()
+        # the agreement with C11's model lives in its own file (it depends on C11's cone): re-check it as well
+        with vlib.Lock('coq'):
+            rc3, o3 = vlib.sh(['coqchk', '-silent', '-o', '-Q', vlib.THEORIES, 'Teleport', 'Teleport.Props.C16_c11'],
+                              cwd=vlib.COQ, timeout=2400)
+        ok3 = rc3 == 0 and 'Axioms: <none>' in o3
+        run.coverage['coqchk_c16_c11'] = 'ok, axioms: none' if ok3 else 'FAILED'
+        if not ok3:
+            run.proof['build_ok'] = False
+            run.proof['build_log'] += '\n[coqchk C16_c11]\n' + o3[-2000:]
     ok, out = vlib.build_harness(['c16'])
     if not ok:
         run.violation(dict(kind='harness-build-failed', log=out[-3000:],
@@ -204,6 +239,18 @@ def check(run):
         b, st, co = ob['bare'], ob['stack'], ob['core']
         dist['bare_' + ('panic' if b['class'] == 2 else 'ack_success' if b['ack_ok'] else 'ack_error')] += 1
         dist['hook_' + {-1: 'not_called', 1: 'status_success', 2: 'status_failed', 0: 'status_unknown'}[st['status']]] += 1
+        hk = ob['hook']
+        dist['direct_hook_' + ('panic' if hk['class'] == 2 else {1: 'status_success', 2: 'status_failed'}.get(hk['status'], 'other'))] += 1
+        if hk['class'] == 0 and not ob['decoded']:
+            dist['direct_hook_decode_error_path'] += 1
+        elif hk['class'] == 0 and not ob['amount_ok']:
+            dist['direct_hook_amount_error_path'] += 1
+        if s.get('chain'):
+            dist['history_step'] += 1
+        if s.get('decoy'):
+            dist['decoy_lookalike_denom'] += 1
+        if s['tag'].startswith('directed-'):
+            dist['directed_corpus'] += 1
         if co['ran']:
             dist['core_' + {0: 'ok', 1: 'error', 2: 'panic'}[co['class']]] += 1
             dist['core_ack_' + ('stored' if co['ack_stored'] else 'absent')] += 1
@@ -219,27 +266,35 @@ def check(run):
         for flag in ('pair_disabled', 'agg_disabled', 'send_disabled', 'recv_disabled'):
             if s[flag]:
                 dist[flag] += 1
-        if st['status'] != -1:
+        if st['status'] != -1 or hk['status'] == 1 or hk['class'] == 2:
             nontrivial.add(json.dumps([s['tag'], s['reg'], s['pair_disabled'], s['agg_disabled'], st['status'], converted,
-                                       ob['owner'], ob['alive'], ob['blocked'], len(ob['recv_bytes']), ob['returning']]))
+                                       ob['owner'], ob['alive'], ob['blocked'], len(ob['recv_bytes']), ob['returning'],
+                                       hk['class'], hk['status'], bool(s.get('chain'))]))
     run.coverage.update(dict(
         evaluations=len(results), distinct_nontrivial=len(nontrivial),
-        rule='one evaluation = one ICS-20 packet on one generated registry/bank state, run three times on branches of the '
-             'same real app state (bare transfer module, the routed middleware stack, ibc-go IBCKeeper.RecvPacket with the '
-             'acknowledgement store read back) plus the ack/timeout callbacks; non-trivial = the keeper hook ran; distinct '
-             '= distinct (generator tag, registration mode, pair/module switches, hook status, converted?, owner, contract '
-             'alive, receiver blocked, receiver length, returning)',
+        rule='one evaluation = one ICS-20 packet on one generated registry/bank state (or, in a history, on the state the '
+             'previous packet committed through ibc-go core), run four times on branches of the same real app state (bare '
+             'transfer module, the routed middleware stack, ibc-go IBCKeeper.RecvPacket with the acknowledgement store read '
+             'back, Keeper.OnRecvPacket called directly) plus the ack/timeout callbacks; non-trivial = the keeper hook ran '
+             'through the stack, or converted / panicked when called directly; distinct = distinct (generator tag, '
+             'registration mode, pair/module switches, hook status, converted?, owner, contract alive, receiver blocked, '
+             'receiver length, returning, direct-hook class and status, history step?)',
         distribution=dict(dist), model_mismatches=len(mm), monitor_failures=len(ff),
-        samples=[results[0]['spec'], results[len(results) // 2]['spec']] if results else []))
+        samples=[results[0]['spec'], results[len(results) // 2]['spec'], results[-1]['spec']] if results else []))
     run.coverage['trusted_base'] += [
-        'translator tools/gotocoq/ics20hook (go/ast): return statements / guards / statement shape of Keeper.OnRecvPacket and '
-        'IBCMiddleware -> Gen/Ics20HookGen.v, obligation C16_source_is_model',
+        'translator tools/gotocoq/ics20hook (go/ast, guards classified by data flow, names irrelevant): statement list of '
+        'Keeper.OnRecvPacket, IBCDenom arguments, message arguments, shape of IBCMiddleware -> Gen/Ics20HookGen.v, normalised '
+        'by Proofs/Ics20Source.v shape_of; obligations C16_source_is_model, C16_source_shape',
         'hand-written model Model/Ics20.v tied to x/aggregate (middleware, hook, IBCDenom, ConvertCoin for standard tokens) and '
         'to ibc-go core RecvPacket by this differential run (generator bounds what it sees)',
         'harness plumbing: channel transfer/channel-0 written directly into the IBC store over a 09-localhost client (handshake '
         'and proof verification are not exercised); everything from ChannelKeeper.RecvPacket on is the real code',
-        'oracles: ibc-go transfer IBCModule.OnRecvPacket (observed on a discarded branch), JSON codec, sdk.NewIntFromString, '
-        'AccAddressFromBech32, sha256 — tabulated from the real functions per case',
+        'oracles: JSON codec, sdk.NewIntFromString, AccAddressFromBech32, sha256, ValidatePrefixedDenom, bytes of error '
+        'acknowledgements — tabulated from the real functions per case; the wrapped application is an oracle (observed on a '
+        'discarded branch) in the generic theorems and the concrete model Model/Ics20Transfer.v (kind 13 ties it to ibc-go\'s '
+        'transfer module: class, success flag, result-acknowledgement bytes, receiver / escrow / module / supply) in the '
+        'end-to-end theorems',
+        'Props/C16_c11.v depends on property C11\'s Model/Convert.v and Proofs/Convert*.v (agreement of the two hook models)',
         'registered ERC-20 contracts behave like syscontracts ERC20MinterBurnerDecimals (adversarial tokens: property C11)']
     run.assumptions += [
         'transfer_sound: the transfer application acknowledges success only for decodable data with a positive amount and a '
@@ -275,21 +330,15 @@ def check(run):
         if len(run.violations) >= 3:
             continue
         small = shrink(run.work, spec, k, 'monitor')
-        rs = run_specs(run.work, [small], 'final') or [results[h]]
-        run.violation(dict(kind='monitor', code=k, what=KINDS.get(k), key=key, spec=small, observed=rs[0]['obs']),
+        hist = history_of(results, h) if small.get('chain') else [small]
+        rs = run_specs(run.work, hist, 'final') or [results[h]]
+        run.violation(dict(kind='monitor', code=k, what=KINDS.get(k), key=key, spec=small, history=hist, observed=rs[-1]['obs']),
                       name='replay_c%d_k%d.json' % (h, k))
-    if not run.quick() and run.proof_ok():
-        # independent re-check of the compiled closure by coqchk
-        mods = ['Teleport.Props.C16'] + ['Teleport.Refuted.' + f[:-2] for f in sorted(os.listdir(os.path.join(vlib.THEORIES, 'Refuted')))
-                                         if f.startswith('C16_') and f.endswith('.v')]
-        rc3, o3 = vlib.sh(['coqchk', '-silent', '-o', '-Q', vlib.THEORIES, 'Teleport'] + mods, cwd=vlib.COQ, timeout=1500)
-        run.coverage['coqchk'] = 'ok, axioms: none' if rc3 == 0 and 'Axioms: <none>' in o3 else 'FAILED'
-        if run.coverage['coqchk'] == 'FAILED':
-            run.violation(dict(kind='coqchk-failed', log=o3[-2000:]), name='replay_coqchk.json', no_input=True)
     if not run.violations:
         for h, s, k in mm[:1]:  # model and code disagree, property monitor silent
             small = shrink(run.work, results[h]['spec'], k, 'model')
             run.violation(dict(kind='correspondence', code=k, what=KINDS.get(k), spec=small,
+                               history=history_of(results, h) if small.get('chain') else [small],
                                explanation='Model/Ics20.v no longer describes the ICS-20 stack of /repo; the theorems of '
                                            'Props/C16.v are about the model, so the property is no longer shown to hold',
                                broken='correspondence Model.Ics20 <-> x/aggregate ibc_middleware.go / keeper/ibc_hook.go'),
@@ -307,12 +356,12 @@ def replay(path):
     if not ok or 'spec' not in rp:
         print('cannot replay: %s' % (out[-500:] if not ok else 'no spec in replay file (%s)' % rp.get('kind')))
         return 2
-    rs = run_specs(work, [rp['spec']], 'replay')
+    rs = run_specs(work, rp.get('history') or [rp['spec']], 'replay')
     if not rs:
         print('harness failed')
         return 2
     mm, ff = evaluate(work, rs, 'replay_cases')
-    ob = rs[0]['obs']
+    ob = rs[-1]['obs']
     print('bare:', json.dumps(ob['bare']))
     print('stack:', json.dumps(ob['stack']))
     print('core:', json.dumps(ob['core']))
